@@ -1,0 +1,32 @@
+//go:build verif
+
+package fasthttp
+
+// C06: what is handed to a cookie setter cannot add a cookie or an attribute. Checked by /verif/gocv
+// (comment-only; compiled to nothing).
+//
+// A ';' is the only byte that starts a new cookie-pair (request Cookie header) or a new attribute (Set-Cookie), so
+// the property reduces to: no stored key / value / domain / path contains ';' (nor CR / LF), and the parsers split
+// a header at ';' bytes only.
+
+//@ spec semifree(b []byte, n int) bool = forall j in [0,n): b[j] != ';'
+
+// Every Cookie method that assigns key, value, domain or path is enumerated from the source on each run and must
+// leave the field free of ';', CR and LF.
+//@ typeinv Cookie
+//@   property C06
+//@   fields key value domain path
+//@   inv[no-semicolon] semifree(F, len(F))
+//@   inv[crlf-free] crlffree(F, len(F))
+//@   skip ParseBytes: fields are cut out of a received Set-Cookie header between ';' bytes (parser side, see cookieScanner)
+//@   skip CopyTo: copies the fields of another Cookie that satisfies the same invariant (not re-proved here)
+
+// RequestHeader.SetCookie*: the key and value stored into h.cookies contain no ';' (the serialiser joins the pairs
+// with "; ", so a ';' inside a value would be read back as an additional cookie).
+//@ func RequestHeader.SetCookie
+//@   property C05 C06
+//@   on call setArgBytes(a, k, v, nv):
+//@     also
+//@     requires[cookie-key-no-semicolon@C06] semifree(k, len(k))
+//@     requires[cookie-value-no-semicolon@C06] semifree(v, len(v))
+//@   end
